@@ -86,6 +86,7 @@ impl<T: Clone + Copy + Number + Signed + std::cmp::PartialOrd> Matrix<T> {
                 }
             }
             //TODO check max_a to ensure matrix is not singular 
+            if max_a == T::zero() { continue; }
             if imax != i {
                 permutation.swap_rows( i, imax );
                 self.swap_rows( i, imax );
